@@ -673,10 +673,19 @@ def exponential_backtracking(pattern, flags=0):
             if op in (sre_c.MAX_REPEAT, sre_c.MIN_REPEAT):
                 body = list(av[2])
                 if unbounded(op, av) and inside_unbounded is not None:
-                    # an unbounded repeat directly inside the body of an unbounded repeat
+                    # an unbounded repeat directly inside the body of an unbounded repeat: a run of
+                    # characters the inner repeat accepts can be split between iterations when what
+                    # may follow it - the rest of the body, or (that being possibly empty) the start
+                    # of the next iteration - can begin with such a character too
                     tail_first, tail_nullable = _first_chars(items[i + 1 :])
                     inner_first, _n = _first_chars(body)
-                    if tail_nullable or (tail_first & inner_first):
+                    next_first = set(tail_first)
+                    if tail_nullable:
+                        of, on = _first_chars(list(inside_unbounded[1][2]))
+                        next_first |= set(of)
+                        if on:
+                            return "nested unbounded repetition in %r" % pattern
+                    if next_first & set(inner_first):
                         return "nested unbounded repetition in %r" % pattern
                 r = visit(body, (op, av) if unbounded(op, av) else inside_unbounded)
                 if r:
